@@ -301,7 +301,7 @@ def write_output_document(
     # Save a backup of the overwrite file, if requested -- once the result is
     # known to be presentable, lest a run which fails before it writes leave a
     # (or replace an earlier) backup behind.
-    if args.backup:
+    if args.backup and exists(args.overwrite):
         backup_file = args.overwrite + ".bak"
         log.verbose(
             "Saving a backup of {} to {}."
